@@ -49,6 +49,7 @@ type Op struct {
 	Hid  int    `json:"hid,omitempty"`
 	Ms   []Mw   `json:"ms,omitempty"`
 	Ts   []TsOpt
+	Var  int // handle / update through 0: Router.Handle/Update, 1: Txn in Updates, 2: NewRoute + HandleRoute/UpdateRoute
 	K    int `json:"k,omitempty"` // request shape for serve: 0 exact 1 tsr 2 nomatch 3 post 4 options
 }
 
@@ -206,21 +207,72 @@ func errTerm(err error) string {
 	return "(Some ErrOther)"
 }
 
-func pattern(key int) string { return fmt.Sprintf("/k%d", key) }
+// ---------- pattern shapes: what a key is registered as, and the requests that hit it ----------
+
+type patShape struct {
+	Pattern, Host, Path string
+	NoTsr               bool // a request with one more slash is matched directly (suffix catch-all): no STsr requests
+}
+
+const nShapes = 12
+
+func shapeFor(key, kind int) patShape {
+	k := fmt.Sprintf("/k%d", key)
+	switch kind {
+	case 1:
+		return patShape{Pattern: k + "/{id}", Path: k + "/42"}
+	case 2:
+		return patShape{Pattern: k + "/pre{id}", Path: k + "/pre42"}
+	case 3:
+		return patShape{Pattern: k + "/{id}/edit", Path: k + "/42/edit"}
+	case 4: // catch-all at the end
+		return patShape{Pattern: k + "/files/*{path}", Path: k + "/files/a/b.txt", NoTsr: true}
+	case 5: // infix catch-all with static text after it
+		return patShape{Pattern: k + "/files/*{path}/raw", Path: k + "/files/a/b/raw"}
+	case 6: // two infix catch-alls
+		return patShape{Pattern: k + "/*{a}/x/*{b}/y", Path: k + "/p/q/x/r/y"}
+	case 7: // infix catch-all starting inside a segment
+		return patShape{Pattern: k + "/v*{p}/end", Path: k + "/va/b/end"}
+	case 8:
+		return patShape{Pattern: fmt.Sprintf("h%d.example.com%s/x", key, k), Host: fmt.Sprintf("h%d.example.com", key), Path: k + "/x"}
+	case 9: // hostname wildcard + infix catch-all
+		return patShape{Pattern: fmt.Sprintf("{sub}.h%d.com%s/*{p}/z", key, k), Host: fmt.Sprintf("a.h%d.com", key), Path: k + "/m/n/z"}
+	case 10:
+		return patShape{Pattern: k + "/{a}/*{b}/t/{c}", Path: k + "/1/2/3/t/4"}
+	case 11: // param then catch-all at the end
+		return patShape{Pattern: k + "/{a}/f*{rest}", Path: k + "/1/fa/b", NoTsr: true}
+	}
+	return patShape{Pattern: k, Path: k}
+}
+
+type patSet [3]patShape
+
+var defaultPats = patSet{shapeFor(0, 0), shapeFor(1, 0), shapeFor(2, 0)}
+
+// curPats is the pattern set of the router whose operations are being executed
+var curPats = defaultPats
+
+func pattern(key int) string { return curPats[key].Pattern }
 
 func request(shape, key int) *http.Request {
+	p := curPats[key]
+	var r *http.Request
 	switch shape {
 	case 0:
-		return httptest.NewRequest(http.MethodGet, pattern(key), nil)
+		r = httptest.NewRequest(http.MethodGet, p.Path, nil)
 	case 1:
-		return httptest.NewRequest(http.MethodGet, pattern(key)+"/", nil)
+		r = httptest.NewRequest(http.MethodGet, p.Path+"/", nil)
 	case 2:
-		return httptest.NewRequest(http.MethodGet, "/zz/nothing/here", nil)
+		r = httptest.NewRequest(http.MethodGet, "/zz/nothing/here", nil)
 	case 3:
-		return httptest.NewRequest(http.MethodPost, pattern(key), nil)
+		r = httptest.NewRequest(http.MethodPost, p.Path, nil)
 	default:
-		return httptest.NewRequest(http.MethodOptions, pattern(key), nil)
+		r = httptest.NewRequest(http.MethodOptions, p.Path, nil)
 	}
+	if p.Host != "" {
+		r.Host = p.Host
+	}
+	return r
 }
 
 func traceTerm(rec *recorder) string {
@@ -253,10 +305,33 @@ func runOp(f *fox.Router, rec *recorder, o Op, cache optCache) (obs string, alia
 				ropts = append(ropts, fox.WithIgnoreTrailingSlash(t.B))
 			}
 		}
-		if o.Kind == "handle" {
-			rte, err = f.Handle(http.MethodGet, pattern(o.Key), runHandler(rec, o.Hid), ropts...)
-		} else {
-			rte, err = f.Update(http.MethodGet, pattern(o.Key), runHandler(rec, o.Hid), ropts...)
+		h := runHandler(rec, o.Hid)
+		switch o.Var % 3 {
+		case 0: // Router.Handle / Router.Update
+			if o.Kind == "handle" {
+				rte, err = f.Handle(http.MethodGet, pattern(o.Key), h, ropts...)
+			} else {
+				rte, err = f.Update(http.MethodGet, pattern(o.Key), h, ropts...)
+			}
+		case 1: // Txn.Handle / Txn.Update in a managed write transaction
+			err = f.Updates(func(txn *fox.Txn) error {
+				var e error
+				if o.Kind == "handle" {
+					rte, e = txn.Handle(http.MethodGet, pattern(o.Key), h, ropts...)
+				} else {
+					rte, e = txn.Update(http.MethodGet, pattern(o.Key), h, ropts...)
+				}
+				return e
+			})
+		default: // NewRoute + HandleRoute / UpdateRoute
+			rte, err = f.NewRoute(pattern(o.Key), h, ropts...)
+			if err == nil {
+				if o.Kind == "handle" {
+					err = f.HandleRoute(http.MethodGet, rte)
+				} else {
+					err = f.UpdateRoute(http.MethodGet, rte)
+				}
+			}
 		}
 		if err == nil {
 			rm, gm := fox.VerifRouteMws(rte), fox.VerifRouterMws(f)
@@ -273,7 +348,7 @@ func runOp(f *fox.Router, rec *recorder, o Op, cache optCache) (obs string, alia
 			return "ObsNoRoute", alias
 		}
 		rec.reset(true)
-		c := fox.NewTestContextOnly(httptest.NewRecorder(), httptest.NewRequest(http.MethodGet, pattern(o.Key), nil))
+		c := fox.NewTestContextOnly(httptest.NewRecorder(), request(0, o.Key))
 		if o.Kind == "rhandle" {
 			rte.Handle(c)
 		} else {
@@ -434,7 +509,13 @@ func (g *gen) ts() []TsOpt {
 	}
 	return out
 }
-func (g *gen) ops() []Op {
+var varNames = []string{"Router", "Txn", "NewRoute+Route"}
+
+func (g *gen) pats() patSet {
+	return patSet{shapeFor(0, g.rnd.Intn(nShapes)), shapeFor(1, g.rnd.Intn(nShapes)), shapeFor(2, g.rnd.Intn(nShapes))}
+}
+
+func (g *gen) ops(pats patSet) []Op {
 	n := g.rnd.Range(2, 8)
 	var out []Op
 	hid := 10
@@ -455,13 +536,22 @@ func (g *gen) ops() []Op {
 		case r < 35:
 			hid++
 			key := pickKey(false, 75)
-			out = append(out, Op{Kind: "handle", Key: key, Hid: hid, Ms: g.ms(0, 3, 3), Ts: g.ts()})
+			out = append(out, Op{Kind: "handle", Key: key, Hid: hid, Ms: g.ms(0, 3, 3), Ts: g.ts(), Var: g.rnd.Intn(3)}, Op{Kind: "serve", Key: key, K: 0})
 			reg[key] = true
 		case r < 55:
 			hid++
-			out = append(out, Op{Kind: "update", Key: pickKey(true, 80), Hid: hid, Ms: g.ms(0, 3, 3), Ts: g.ts()})
+			key := pickKey(true, 80)
+			// every update is followed by a real request for the route (and sometimes the route-only chain)
+			out = append(out, Op{Kind: "update", Key: key, Hid: hid, Ms: g.ms(0, 3, 3), Ts: g.ts(), Var: g.rnd.Intn(3)}, Op{Kind: "serve", Key: key, K: 0})
+			if g.rnd.Bool() {
+				out = append(out, Op{Kind: "rhandlemw", Key: key})
+			}
 		case r < 88:
-			out = append(out, Op{Kind: "serve", Key: pickKey(true, 70), K: g.rnd.Intn(5)})
+			key, k := pickKey(true, 70), g.rnd.Intn(5)
+			if k == 1 && pats[key].NoTsr {
+				k = 0
+			}
+			out = append(out, Op{Kind: "serve", Key: key, K: k})
 		case r < 94:
 			out = append(out, Op{Kind: "rhandle", Key: pickKey(true, 70)})
 		default:
@@ -471,6 +561,9 @@ func (g *gen) ops() []Op {
 	// closing sweep on one key: all five kinds and both direct calls
 	key := pickKey(true, 85)
 	for k := 0; k < 5; k++ {
+		if k == 1 && pats[key].NoTsr {
+			continue
+		}
 		out = append(out, Op{Kind: "serve", Key: key, K: k})
 	}
 	out = append(out, Op{Kind: "rhandlemw", Key: key}, Op{Kind: "rhandle", Key: key})
@@ -654,7 +747,7 @@ func main() {
 			"Definition viol := Eval vm_compute in spec_violations cases.\nPrint viol.\n" +
 			"Definition oof := Eval vm_compute in fuel_outs cases.\nPrint oof.\n",
 	}
-	st := &hx.Stats{Rule: "sequential cases: seeded lists of 0-9 global options (WithMiddleware 1-3 fns, WithMiddlewareFor with constant / union / arbitrary uint8 / zero masks, DefaultOptions, unrelated options; nil entries in a separate stream) x 2-8 Handle/Update/request/Route.Handle(Middleware) operations on 3 keys + a closing sweep of all five handler kinds; exhaustive: every scope mask 0..255 x five kinds; race cases: 2 goroutines x N NewRoute with route middleware under 0-7 global entries, in a child process under the race detector. non-trivial = at least one request whose trace contains a middleware event, or an error outcome, or a race case; distinct = distinct (options, operations) pairs"}
+	st := &hx.Stats{Rule: "sequential cases: seeded lists of 0-9 global options (WithMiddleware 1-3 fns, WithMiddlewareFor with constant / union / arbitrary uint8 / zero masks, DefaultOptions, unrelated options; nil entries in a separate stream) x 2-8 Handle/Update (through Router, Txn in Updates, or NewRoute+HandleRoute/UpdateRoute; each followed by a real request) /request/Route.Handle(Middleware) operations on 3 keys registered under seeded pattern shapes (static, {param}, prefix{param}, param+suffix, catch-all at the end, infix catch-all, two infix catch-alls, mid-segment infix catch-all, hostname, hostname wildcard + infix catch-all); exhaustive: 12 pattern shapes x 3 creation paths with two updates + a closing sweep of all five handler kinds; exhaustive: every scope mask 0..255 x five kinds; race cases: 2 goroutines x N NewRoute with route middleware under 0-7 global entries, in a child process under the race detector. non-trivial = at least one request whose trace contains a middleware event, or an error outcome, or a race case; distinct = distinct (options, operations) pairs"}
 	seenCases := map[string]bool{}
 	nontrivial := 0
 
@@ -668,9 +761,10 @@ func main() {
 		ops                    []Op
 		opTerms, human         []string
 		nt                     bool
+		pats                   patSet
 	}
 	newRun := func(gopts []GOpt, kind string, rec *recorder, cache optCache) *routerRun {
-		r := &routerRun{gopts: gopts, rec: rec, cache: cache, kind: kind, mwsTerm: "[]"}
+		r := &routerRun{gopts: gopts, rec: rec, cache: cache, kind: kind, mwsTerm: "[]", pats: defaultPats}
 		f, err, pan := buildRouter(rec, gopts, cache)
 		r.newErr = errTerm(err)
 		if pan {
@@ -699,11 +793,18 @@ func main() {
 		if r.f == nil {
 			return
 		}
+		curPats = r.pats
 		for _, o := range ops {
 			obs, alias := runOp(r.f, r.rec, o, r.cache)
 			r.ops = append(r.ops, o)
 			r.opTerms = append(r.opTerms, fmt.Sprintf("(%s, %s, %s)", opTerm(o), obs, alias))
-			r.human = append(r.human, opTerm(o)+" => "+obs+" alias="+alias)
+			via := ""
+			if o.Kind == "handle" || o.Kind == "update" {
+				via = " via " + varNames[o.Var%3]
+				st.Count("create-via:" + varNames[o.Var%3])
+				st.Count("pattern-shape:" + r.pats[o.Key].Pattern[strings.Index(r.pats[o.Key].Pattern, "/k")+3:])
+			}
+			r.human = append(r.human, opTerm(o)+via+" => "+obs+" alias="+alias)
 			st.Count("op:" + o.Kind)
 			if o.Kind == "serve" {
 				st.Count("request:" + shapeNames[o.K])
@@ -737,7 +838,8 @@ func main() {
 		if r.nt {
 			nontrivial++
 		}
-		h := fmt.Sprintf("[%s] fox.New(%s) err=%s router.mws=%s; ops: %s", r.kind, gterm, r.newErr, r.mwsTerm, strings.Join(r.human, " ;; "))
+		h := fmt.Sprintf("[%s] fox.New(%s) err=%s router.mws=%s; keys 0,1,2 = GET %s, %s, %s; ops: %s", r.kind, gterm, r.newErr, r.mwsTerm,
+			r.pats[0].Pattern, r.pats[1].Pattern, r.pats[2].Pattern, strings.Join(r.human, " ;; "))
 		cs.Add(term, h)
 		st.Count("kind:" + r.kind)
 		for _, o := range r.gopts {
@@ -747,11 +849,13 @@ func main() {
 			st.Samples = append(st.Samples, h)
 		}
 	}
-	addSeq := func(gopts []GOpt, ops []Op, kind string) {
+	addSeqP := func(gopts []GOpt, pats patSet, ops []Op, kind string) {
 		r := newRun(gopts, kind, &recorder{}, nil)
+		r.pats = pats
 		exec(r, ops)
 		emit(r)
 	}
+	addSeq := func(gopts []GOpt, ops []Op, kind string) { addSeqP(gopts, defaultPats, ops, kind) }
 	sweep := func(key int) []Op {
 		var ops []Op
 		for k := 0; k < 5; k++ {
@@ -776,6 +880,33 @@ func main() {
 			ops = append(ops, Op{Kind: "serve", Key: 0, K: k})
 		}
 		addSeq(gopts, ops, "exhaustive-mask")
+		// the same mask with a nil middleware, alone and after a valid one: New must fail whatever the mask is
+		addSeq([]GOpt{{Kind: "for", Scope: uint8(m), Ms: []Mw{{Nil: true}}}}, nil, "exhaustive-mask-nil")
+		addSeq([]GOpt{{Kind: "for", Scope: uint8(m), Ms: []Mw{{ID: 1}, {Nil: true}}}}, nil, "exhaustive-mask-nil")
+	}
+	// exhaustive: every pattern shape x every way of creating / updating a route; the chain is observed through real
+	// requests after the creation and after each of two updates
+	for kind := 0; kind < nShapes; kind++ {
+		for v := 0; v < 3; v++ {
+			pats := patSet{shapeFor(0, kind), shapeFor(1, (kind+5)%nShapes), shapeFor(2, 0)}
+			gopts := append([]GOpt{{Kind: "mw", Ms: []Mw{{ID: 1}}}}, allOn...)
+			obsv := func(key int) []Op {
+				ops := []Op{{Kind: "serve", Key: key, K: 0}}
+				if !pats[key].NoTsr {
+					ops = append(ops, Op{Kind: "serve", Key: key, K: 1})
+				}
+				return append(ops, Op{Kind: "serve", Key: key, K: 3}, Op{Kind: "rhandlemw", Key: key}, Op{Kind: "rhandle", Key: key})
+			}
+			ops := []Op{{Kind: "handle", Key: 0, Hid: 11, Ms: []Mw{{ID: 2}}, Var: v}, {Kind: "handle", Key: 1, Hid: 12, Ms: []Mw{{ID: 3}}, Var: (v + 1) % 3}}
+			ops = append(ops, obsv(0)...)
+			ops = append(ops, Op{Kind: "update", Key: 0, Hid: 13, Ms: []Mw{{ID: 4}, {ID: 5}}, Var: v})
+			ops = append(ops, obsv(0)...)
+			ops = append(ops, Op{Kind: "update", Key: 1, Hid: 14, Ms: nil, Var: (v + 2) % 3})
+			ops = append(ops, obsv(1)...)
+			ops = append(ops, Op{Kind: "update", Key: 0, Hid: 15, Ms: []Mw{{ID: 6}}, Ts: []TsOpt{{Redirect: false, B: true}}, Var: (v + 1) % 3})
+			ops = append(ops, obsv(0)...)
+			addSeqP(gopts, pats, ops, "exhaustive-shapes")
+		}
 	}
 	// exhaustive: every combination of the feature switches, independent of the middleware scopes:
 	// global trailing-slash mode x per-route trailing-slash option x NoMethod x AutoOptions, with one middleware
@@ -808,11 +939,13 @@ func main() {
 	}
 	for i := 0; i < nseq; i++ {
 		g := &gen{rnd: rnd}
-		addSeq(g.gopts(0), g.ops(), "random")
+		pats := g.pats()
+		addSeqP(g.gopts(0), pats, g.ops(pats), "random")
 	}
 	for i := 0; i < nnil; i++ {
 		g := &gen{rnd: rnd}
-		addSeq(g.gopts(12), g.ops(), "random-nil")
+		pats := g.pats()
+		addSeqP(g.gopts(12), pats, g.ops(pats), "random-nil")
 	}
 
 	// one Option VALUE used in several places: routes and routers, in every order
